@@ -3,6 +3,7 @@ C17 — reading never writes.
 -/
 import SC.Lemmas.Seq
 import SC.Lemmas.Buffer
+import SC.Lemmas.BufRead
 namespace SC.Props
 open SC
 
@@ -41,5 +42,24 @@ theorem C17_buffered_readonly_not_written_memory (s : B.State) (oi : Nat) (o : B
     (B.flushMem s oi o force).2 = none ∧
     (B.flushMem s oi o force).1.stores = s.stores ∧ (B.flushMem s oi o force).1.metas = s.metas :=
   B.flushMem_readonly s oi o force e hb he hm
+
+/-- C17 (buffered), histories: starting from any state of a buffered class in which every
+buffered copy is clean (in particular: nothing buffered yet), ANY history made of reads through
+any handles, enters and exits of `obj.buffered` and `buffer_backend(cap)` in any nesting,
+capacity changes and new objects — including every flush those exits and capacities trigger —
+leaves the content, the metadata (size, mtime stamp) of every file and the stamp counter exactly
+as they were: nothing is written, nothing is created, and all buffered copies are still clean.
+Both strategies. -/
+theorem C17_readonly_history_never_writes (s : B.State) (history : List B.Step)
+    (hro : ∀ st ∈ history, st.readOnly = true) (hclean : B.AllClean s) :
+    (B.run s history).stores = s.stores ∧ (B.run s history).metas = s.metas ∧
+    (B.run s history).stamp = s.stamp ∧ B.AllClean (B.run s history) := by
+  obtain ⟨hc, hd⟩ := (B.ro_run history s hro).2 hclean
+  exact ⟨hd.1, hd.2.1, hd.2.2, hc⟩
+
+/-- the initial state of a buffered class is clean -/
+theorem C17_init_clean (fam : Fam) (strategy : Buffering) (fl : List ((Int × Nat) × Nat)) :
+    B.AllClean (B.State.init fam strategy fl) := by
+  intro p hp; simp [B.State.init] at hp
 
 end SC.Props
